@@ -54,7 +54,7 @@ func (m *Mutex) SimName() string { return m.name() }
 //go:norace
 func (m *Mutex) acquire(s *sched.Sched) {
 	s.Yield("lock?", m.name())
-	for m.held {
+	for m.held && !s.Over() {
 		s.Wait(m, "lockwait")
 	}
 	m.held = true
@@ -124,7 +124,7 @@ func (m *RWMutex) SimName() string { return m.name() }
 //go:norace
 func (m *RWMutex) acquireW(s *sched.Sched) {
 	s.Yield("lock?", m.name())
-	for m.writer || m.readers > 0 {
+	for (m.writer || m.readers > 0) && !s.Over() {
 		s.Wait(m, "lockwait")
 	}
 	m.writer = true
@@ -134,7 +134,7 @@ func (m *RWMutex) acquireW(s *sched.Sched) {
 //go:norace
 func (m *RWMutex) acquireR(s *sched.Sched) {
 	s.Yield("rlock?", m.name())
-	for m.writer {
+	for m.writer && !s.Over() {
 		s.Wait(m, "rlockwait")
 	}
 	m.readers++
@@ -251,7 +251,7 @@ func (c *Cond) enqueue(s *sched.Sched) *waiter {
 
 //go:norace
 func (c *Cond) park(s *sched.Sched, w *waiter) {
-	for !w.signaled {
+	for !w.signaled && !s.Over() {
 		s.Wait(c, "condwait")
 	}
 	s.Note("condwake", c.name())
